@@ -455,6 +455,9 @@ func (i *interpreter) concretizeInt(v value) value {
 	if !ok {
 		return v
 	}
+	if s.k == types.Bool {
+		return i.ex.Branch(s.t)
+	}
 	u := i.ex.Concretize(s.t)
 	return concreteOfKind(s.k, u)
 }
